@@ -16,7 +16,7 @@ func init() {
 	register(&propertyDef{
 		id:    "C14",
 		title: "a prepared workflow can be run again and concurrently",
-		rules: []ruleFunc{c14R1, c14R2, c14R3, c14R4, c14R5, c14R6, c14R7, c14R8, c14R9},
+		rules: []ruleFunc{c14R1, c14R2, c14R3, c14R4, c14R5, c14R6, c14R7, c14R8, c14R9, c14R10},
 		decided: "the run path never writes prepared state: no store, map update or element store whose target belongs to an executableWorkflow, DAGItem, OneOf/OptionalExpression, Lifecycle, Workflow or runnableStep value (R1; the same detector must find the known prepare-time writers, so it cannot pass vacuously); " +
 			"every field of the per-run state is initialised from a fresh allocation, a constant, the caller's arguments or a read-only field of the prepared workflow, the DAG specifically from Clone(), and no mutating graph method is invoked on the prepared DAG (R2); the expression annotations and node data are written only by the tabled prepare functions (R3); " +
 			"(thorough) the pluginsdk schema methods used at run time do not write their receiver (R4). Shared: sub-runs of a prepared workflow get the step context itself, not one a sibling run cancels (R5 = C05.R7).",
@@ -1074,4 +1074,58 @@ func c14R9(c *Ctx) {
 			fmt.Sprintf("resolveExpressions hands its argument back as it is on a path where it can be a container (not-a-list established=%v, not-a-map established=%v): the prepared data, shared by all runs, leaves the engine", notSlice, notMap))
 	})
 	c.minCount(rule, "returns of the argument itself", n, 1)
+}
+
+// C14.R10 a step does not write into the run data it is started with.
+func c14R10(c *Ctx) {
+	const rule = "C14.R10"
+	c.explain("C14.R10 no implementation of RunnableStep.Start (nor a helper it owns) updates, deletes from or clears a map or list it received as a parameter: the run data handed to Start is built once by Prepare and is the same object for every run of the prepared workflow (and for every item of a loop), so a write in one run is seen — and raced with — by every other")
+	n := 0
+	for _, top := range c.ifaceMethodImpls(pkgStep, "RunnableStep", "Start") {
+		if c.excluded(top) {
+			continue
+		}
+		n++
+		var params []ssa.Value
+		for _, p := range top.Params {
+			switch p.Type().Underlying().(type) {
+			case *types.Map, *types.Slice:
+				params = append(params, p)
+			}
+		}
+		fromParam := func(v ssa.Value) bool {
+			if _, fresh := v.(*ssa.MakeMap); fresh {
+				return false
+			}
+			if _, fresh := v.(*ssa.MakeSlice); fresh {
+				return false
+			}
+			for _, p := range params {
+				if v == p || throughParams(v) == p {
+					return true
+				}
+			}
+			return false
+		}
+		var writes []string
+		c.eachInstrLogical(top, func(r instrRef) {
+			switch x := r.I.(type) {
+			case *ssa.MapUpdate:
+				if fromParam(x.Map) {
+					writes = append(writes, c.instrPos(x))
+				}
+			case *ssa.Store:
+				if ia, ok := x.Addr.(*ssa.IndexAddr); ok && fromParam(ia.X) {
+					writes = append(writes, c.instrPos(x))
+				}
+			case *ssa.Call:
+				if (isBuiltinCall(x, "delete") || isBuiltinCall(x, "clear")) && len(x.Call.Args) > 0 && fromParam(x.Call.Args[0]) {
+					writes = append(writes, c.instrPos(x))
+				}
+			}
+		})
+		c.verdict(len(writes) == 0, rule, "start:"+c.fnName(top), c.pos(top.Pos()), "Start only reads the containers it is given",
+			c.fnName(top)+" writes into a container it received as a parameter ("+strings.Join(writes, ", ")+"): the run data is shared by all runs of the prepared workflow — overlapping runs race on it and later runs see the write")
+	}
+	c.minCount(rule, "implementations of RunnableStep.Start", n, 2)
 }
